@@ -9,9 +9,18 @@ Types are natural-number tags (`TypeId`). A resource reference `&dyn Resource` i
 The function pointer `attach_vtable::<T, R>` stored by `register::<R>` is identified by the
 tag of `R`, the type it was instantiated with: it calls `<T as CastFrom<R>>::cast`, which is
 user code. That user code is the parameter `cast : CastFn` of everything below: `cast r a` is the
-address of the pointer `<T as CastFrom<R>>::cast` returns for `R = r` and the address `a`; the
-vtable it attaches is the one of `R` (the return type is `*mut T` and the argument `*mut R`, so a
-safe implementation can attach no other). A correct implementation has `cast r a = a`.
+trait-object pointer `<T as CastFrom<R>>::cast` returns for `R = r` and a pointer with address `a`:
+an address **and a vtable**, both chosen by the user's code. (The return type is `*mut T` for the
+unsized `T`; nothing forces the vtable to be `R`'s: a safe implementation can return a pointer to a
+field of `*t`, to a static, to a leaked object of any type implementing the trait, …) A lawful
+implementation — the `# Safety` contract of `CastFrom` (l.25-28) — has `cast r a = ⟨a, r⟩`.
+
+`register` never calls `cast` in the stable variant (l.367-390: it only stores the function
+pointer), so nothing is checked at registration; the address assert (l.270-273) runs inside every
+call of the stored function, i.e. at every `get` / `get_mut` / `next` — and it compares addresses
+only. A cast that keeps the address but attaches another type's vtable (first field of a
+`repr(C)` struct, another zero-sized type at the same dangling address) is therefore accepted:
+the model returns exactly what the code returns, the pointer `cast` produced.
 
 The world is reduced to what the iterators use: which types are present under dynamic id 0
 (`ResourceId::from_type_id`), where the boxed value lives, and the borrow flag of its
@@ -36,14 +45,19 @@ structure MetaTable where
   tys : List Nat := []
 deriving Repr, DecidableEq
 
-/-- user code: address returned by `<T as CastFrom<R>>::cast` for `R` and an input address -/
-abbrev CastFn := Nat → Nat → Nat
-
 /-- `*mut T` for the unsized `T`: address and vtable (named by the concrete type it is for) -/
 structure TraitPtr where
   addr : Nat
   vtable : Nat
 deriving Repr, DecidableEq
+
+/-- user code: the pointer (address, vtable) returned by `<T as CastFrom<R>>::cast` for `R` and
+an input address -/
+abbrev CastFn := Nat → Nat → TraitPtr
+
+/-- the lawful `CastFrom` implementation (`fn cast(t: *mut R) -> *mut T { t }`): same address,
+vtable of `R` -/
+def lawfulCast : CastFn := fun ty a => ⟨a, ty⟩
 
 /-- `&dyn Resource`: concrete type of the value (`res.type_id()`) and its address -/
 structure ResRef where
@@ -84,9 +98,11 @@ inductive GetOut
   | panic (e : MPanic)
 deriving Repr, DecidableEq
 
-/-- `attach_vtable::<T, R>(value)` (l.259-275) for `R = fnTy`: cast, then the address assert -/
+/-- `attach_vtable::<T, R>(value)` (l.259-275) for `R = fnTy`: cast, then the address assert
+(`core::ptr::eq(value, trait_ptr.cast::<()>())`: the address only — the vtable is not and cannot
+be compared). The check does not depend on the size, alignment or drop glue of `R`. -/
 def attachVtable (cast : CastFn) (fnTy : Nat) (value : Nat) : Option TraitPtr :=
-  let traitPtr : TraitPtr := ⟨cast fnTy value, fnTy⟩
+  let traitPtr : TraitPtr := cast fnTy value
   if traitPtr.addr = value then some traitPtr else none   -- `none`: the assert fired
 
 namespace MetaTable
